@@ -3,6 +3,8 @@ import Driver.Util
 import WW.Model.CpSwap
 import WW.Model.Slippage
 import WW.Model.SlippageExec
+import WW.Model.Weight
+import Driver.Trio
 namespace Driver
 open WW
 
@@ -111,6 +113,16 @@ def pureCall (ws : List String) : String :=
       | some res => xRoute toW off m minr prev { prot := pr, swap := sw, burn := bu } k res
       | none => "bad-op"
     | _, _, _, _ => "bad-op"
+  | "weight" :: args =>
+    match nats? args with
+    | some [d, a] => showRes toString (calcWeight d a)
+    | _ => "bad-op"
+  | "weight2" :: args =>
+    match nats? args with
+    | some [d1, a1, d2, a2] =>
+      showRes toString (calcWeight d1 a1) ++ " | " ++ showRes toString (calcWeight d2 a2)
+    | _ => "bad-op"
+  | fn :: args => if fn.startsWith "trio_" then Driver.Trio.pureCall fn args else "bad-op"
   | _ => "bad-op"
 
 end Driver
